@@ -24,7 +24,8 @@ const (
 	Bytes
 	List
 	Map
-	Link // S holds the binary CID
+	Link   // S holds the binary CID
+	Absent // a typed struct's optional field that is not there (type-level view only)
 )
 
 type V struct {
@@ -60,7 +61,7 @@ func Equal(a, b *V) bool {
 		return false
 	}
 	switch a.K {
-	case Null:
+	case Null, Absent:
 		return true
 	case Bool:
 		return a.B == b.B
@@ -100,6 +101,9 @@ func Of(n datamodel.Node) *V {
 	}
 	switch n.Kind() {
 	case datamodel.Kind_Null:
+		if n.IsAbsent() {
+			return &V{K: Absent}
+		}
 		if !n.IsNull() {
 			return &V{}
 		}
@@ -192,3 +196,48 @@ func Of(n datamodel.Node) *V {
 }
 
 var _ = io.EOF
+
+// Show renders a value for diagnostics (concrete parts only).
+func Show(v *V) string {
+	if v == nil {
+		return "<nil>"
+	}
+	switch v.K {
+	case Invalid:
+		return "INVALID"
+	case Null:
+		return "null"
+	case Absent:
+		return "absent"
+	case Bool:
+		if v.B {
+			return "true"
+		}
+		return "false"
+	case Int:
+		return "int"
+	case Uint:
+		return "uint"
+	case Float:
+		return "float"
+	case String:
+		return "s(" + v.S + ")"
+	case Bytes:
+		return "bytes"
+	case Link:
+		return "link"
+	case List:
+		s := "["
+		for _, e := range v.L {
+			s += Show(e) + " "
+		}
+		return s + "]"
+	case Map:
+		s := "{"
+		for i, e := range v.L {
+			s += v.Keys[i] + ":" + Show(e) + " "
+		}
+		return s + "}"
+	}
+	return "?"
+}
